@@ -10,6 +10,7 @@ open S4V.Model.Wire
 def step (line : String) : String :=
   match words line with
   | "asm" :: rest => S4V.Drv.Stream.stepAsm rest
+  | "strm" :: rest => S4V.Drv.Stream.stepStrm rest
   | _ => "bad-op"
 
 partial def loop (h : IO.FS.Stream) (out : IO.FS.Stream) : IO Unit := do
